@@ -194,6 +194,16 @@ func vScenarioC16(rc *runCtx) {
 	rc.res.Scenario["reader"] = map[bool]string{true: "windows-console", false: "tmux-junk"}[win]
 	rc.res.Scenario["noise"] = vKindSet(allKinds)
 	rc.res.Scenario["stream"] = vQuote(stream, 200)
+	if ctrlAt >= 0 {
+		lo, hi := ctrlAt-40, ctrlAt+30
+		if lo < 0 {
+			lo = 0
+		}
+		if hi > len(stream) {
+			hi = len(stream)
+		}
+		rc.res.Scenario["ctrl_context"] = vQuote(stream[lo:hi], 100)
+	}
 
 	t := newTransfer(discardWriter{}, nil, false, nil)
 	if win {
@@ -261,9 +271,7 @@ func vScenarioC16(rc *runCtx) {
 			}
 			off += len(it.noisy)
 		}
-		if lineOfCtrl < 0 {
-			lineOfCtrl = len(items) - 1
-		}
+		// a Ctrl-C after the terminator of the last line is not inside any line that is read
 	}
 	for i, it := range items {
 		if lineOfCtrl >= 0 && i == lineOfCtrl {
